@@ -73,7 +73,7 @@ func multiFault(c *fw.Ctx, n int, emit emitFn) {
 			for q := 0; q < k; q++ {
 				sb.WriteString(fmt.Sprintf("TYPE @u%d\n  {\n    \"k\": [\n      @rx\n    ]\n  }\n", q))
 			}
-			sb.WriteString("GET /u\n  200\n    {\n      \"v\": @u0 | @rx\n    }\n")
+			sb.WriteString("GET /u\n  200\n    {\n      \"v\": @u0 | @rx\n    }\n  201 @u0\n  202 [@rx]\n")
 		case 11: // allOf of several undefined / non-object types
 			sb.WriteString("TYPE @o\n  { // {allOf: [\"@x1\", \"@x2\", \"@x3\"]}\n  }\nTYPE @x2 any\n")
 		}
